@@ -681,14 +681,14 @@ func TestVerifC19NUMAReplay(t *testing.T) {
 		nodeInfo, _ := plg.handle.SnapshotSharedLister().NodeInfos().Get(c19Node)
 
 		// independent informers: in some cases the restarted scheduler gets pod events before the node's topology report
-		lateTopologyCase := rapid.IntRange(0, 6).Draw(t, "podEventsMayPrecedeTopology") == 0
+		lateTopologyCase := rapid.IntRange(0, 9).Draw(t, "podEventsMayPrecedeTopology") == 0
 		persisted := map[types.UID]c19Obj{}    // what the API server holds: bound pods (incl. terminated ones), scheduled reservations
 		model := map[types.UID]PodAllocation{} // what Reserve handed to each still-active pod / reservation
 		deletedHow := map[types.UID]string{}
 		next := 0
 		var hist []string
 		dead := false
-		sawNUMA, sawCPU, sawShare, sawDup, sawTerminated, sawExclMismatchShape, sawSelfEvent, sawLate, sawResv := false, false, false, false, false, false, false, false, false
+		sawNUMA, sawCPU, sawShare, sawDup, sawTerminated, sawPodFinished, sawExclMismatchShape, sawSelfEvent, sawLate, sawResv := false, false, false, false, false, false, false, false, false, false
 		maxLive, checks := 0, 0
 
 		bound := func() []types.UID {
@@ -779,23 +779,36 @@ func TestVerifC19NUMAReplay(t *testing.T) {
 				full = "numa-replay:live-keeps-deleted-object:" + how
 			}
 			if o, ok := persisted[about]; ok && sig == "exclusive-policy-differs" {
-				// the scheduling path reads the pod's preferred exclusive policy only for LSE/LSR prod pods with a
-				// FullPCPUs/SpreadByPCPUs policy; the informer path reads it unconditionally
-				spec, _ := extension.GetResourceSpec(o.annotations())
-				lp := model[about]
-				if !vsModel {
-					lp = rm.GetNodeAllocation(c19Node).allocatedPods[about]
+				// Two known root causes get their own signature; any other exclusive-policy mismatch keeps the bare one.
+				// what the informer path reads: the pod's annotations; for a Reservation those of its reserve pod (the
+				// Reservation's own annotations override the template's)
+				eff := o.annotations()
+				if o.Resv != nil {
+					eff = reservationutil.NewReservePod(o.Resv).Annotations
 				}
-				if spec != nil && c19NormExcl(lp.CPUExclusivePolicy) == "None" && c19NormExcl(spec.PreferredCPUExclusivePolicy) != "None" {
-					full += ":annotation-not-used-when-scheduling"
-				} else if o.Resv != nil && o.Resv.Spec.Template != nil {
-					// PreBindReservation writes a resource-spec annotation on the Reservation; NewReservePod lets it
-					// override the one in the pod template the reservation was scheduled with
-					tplSpec, _ := extension.GetResourceSpec(o.Resv.Spec.Template.Annotations)
+				spec, _ := extension.GetResourceSpec(eff)
+				handed := model[about] // what the scheduling cycle allocated with
+				if !vsModel {
+					handed = rm.GetNodeAllocation(c19Node).allocatedPods[about]
+				}
+				restored := fresh.GetNodeAllocation(c19Node).allocatedPods[about]
+				readBack := spec != nil && c19NormExcl(restored.CPUExclusivePolicy) == c19NormExcl(spec.PreferredCPUExclusivePolicy)
+				var tplSpec *extension.ResourceSpec
+				shadowed := false
+				if o.Resv != nil && o.Resv.Spec.Template != nil {
+					tplSpec, _ = extension.GetResourceSpec(o.Resv.Spec.Template.Annotations)
 					_, own := o.Resv.Annotations[extension.AnnotationResourceSpec]
-					if own && tplSpec != nil && spec != nil && c19NormExcl(tplSpec.PreferredCPUExclusivePolicy) != c19NormExcl(spec.PreferredCPUExclusivePolicy) {
-						full += ":reservation-annotation-shadows-template"
-					}
+					shadowed = own && tplSpec != nil && spec != nil && c19NormExcl(tplSpec.PreferredCPUExclusivePolicy) != c19NormExcl(spec.PreferredCPUExclusivePolicy)
+				}
+				switch {
+				case shadowed && readBack && c19NormExcl(handed.CPUExclusivePolicy) == c19NormExcl(tplSpec.PreferredCPUExclusivePolicy):
+					// PreBindReservation wrote a resource-spec annotation on the Reservation that hides the template's:
+					// the cycle used the template's policy, the informer path reads the Reservation's (without it)
+					full += ":reservation-annotation-shadows-template"
+				case !shadowed && readBack && c19NormExcl(handed.CPUExclusivePolicy) == "None" && c19NormExcl(spec.PreferredCPUExclusivePolicy) != "None":
+					// PreFilter reads the preferred exclusive policy only for LSE/LSR prod pods with a FullPCPUs /
+					// SpreadByPCPUs policy; the informer path reads it unconditionally
+					full += ":annotation-not-used-when-scheduling"
 				}
 			}
 			if strings.HasPrefix(full, "numa-replay:live-keeps-deleted-object") {
@@ -933,7 +946,11 @@ func TestVerifC19NUMAReplay(t *testing.T) {
 				delete(model, u)
 				hist = append(hist, fmt.Sprintf("delete %s (%s)", u, how))
 			},
-			"terminate": func(t *rapid.T) { // pod finished / reservation consumed or expired: the object stays in the API server
+			// A pod that finishes (phase Succeeded/Failed) leaves the scheduler's pod informer, which carries the field
+			// selector status.phase!=Succeeded,status.phase!=Failed (scheduler.NewInformerFactory): every handler gets a
+			// DELETE and a restarted scheduler never sees the object. The Reservation informer is unfiltered: a consumed
+			// or expired Reservation stays in the API server and is delivered with its terminal phase.
+			"finish": func(t *rapid.T) {
 				if dead {
 					return
 				}
@@ -943,20 +960,29 @@ func TestVerifC19NUMAReplay(t *testing.T) {
 				}
 				u := rapid.SampledFrom(uids).Draw(t, "uid")
 				old := persisted[u]
-				n := old.copy()
-				how := ""
-				if n.Resv != nil {
+				if old.Resv != nil {
+					n := old.copy()
 					n.Resv.Status.Phase = rapid.SampledFrom([]schedulingv1alpha1.ReservationPhase{schedulingv1alpha1.ReservationSucceeded, schedulingv1alpha1.ReservationFailed}).Draw(t, "resvPhase")
-					how = string(n.Resv.Status.Phase)
-				} else {
-					n.Pod.Status.Phase = rapid.SampledFrom([]corev1.PodPhase{corev1.PodSucceeded, corev1.PodFailed}).Draw(t, "phase")
-					how = string(n.Pod.Status.Phase)
+					live.update(old, n)
+					persisted[u] = n
+					delete(model, u)
+					sawTerminated = true
+					hist = append(hist, fmt.Sprintf("finish reservation %s (%s, object stays)", u, n.Resv.Status.Phase))
+					return
 				}
-				live.update(old, n)
-				persisted[u] = n
+				phase := rapid.SampledFrom([]corev1.PodPhase{corev1.PodSucceeded, corev1.PodFailed}).Draw(t, "phase")
+				tomb := rapid.IntRange(0, 3).Draw(t, "tombstone") == 0
+				last := old.copy() // the last state the filtered informer knew: still running
+				live.delete(last, tomb)
+				how := "pod-finished"
+				if tomb {
+					how += "-tombstone"
+				}
+				deletedHow[u] = how
+				delete(persisted, u)
 				delete(model, u)
-				sawTerminated = true
-				hist = append(hist, fmt.Sprintf("terminate %s (%s)", u, how))
+				sawPodFinished = true
+				hist = append(hist, fmt.Sprintf("finish pod %s (%s): delivered as delete (%s), object leaves the informer", u, phase, how))
 			},
 			"touch": func(t *rapid.T) { // an update that carries the same allocation (label change, status heartbeat)
 				if dead {
@@ -1016,7 +1042,8 @@ func TestVerifC19NUMAReplay(t *testing.T) {
 		c.ClassIf(sawNUMA, "numa-amount-allocation")
 		c.ClassIf(sawShare, "two-running-pods-on-one-numa-node(at end)")
 		c.ClassIf(sawDup, "duplicate-or-noop-event")
-		c.ClassIf(sawTerminated, "terminated-object-persisted")
+		c.ClassIf(sawTerminated, "finished-reservation-persisted")
+		c.ClassIf(sawPodFinished, "pod-finished(delivered-as-delete)")
 		c.ClassIf(sawSelfEvent, "live-saw-own-bind-event")
 		c.ClassIf(sawExclMismatchShape, "cpuset-for-non-LSR/LSE-pod(node policy)")
 		c.ClassIf(sawLate, "pod-event-before-topology")
